@@ -176,6 +176,13 @@ def step (O : Oracles) (s : St) (j : Json) : Except String St := do
   | "mixin" =>
     let n ← (← j.getObjVal? "name").getStr?
     pure { s with w := s.w.add (mixinDef n), out := s.out ++ [Json.mkObj [("ok", .null)]] }
+  | "guards" =>
+    -- `TypedPyDefaults.block_unknown_consts` / `Structure.set_block_non_typedpy_field_assignment`
+    -- changed between two class statements
+    let bc ← optBool j "consts" true
+    let bn ← optBool j "nontypedpy" true
+    pure { s with w := { s.w with blockConsts := bc, blockNonTypedpy := bn },
+                  out := s.out ++ [Json.mkObj [("ok", .null)]] }
   | "derive" =>
     let op ← opOfJson j
     let source ← (← j.getObjVal? "source").getStr?
